@@ -35,7 +35,7 @@ ASSUMPTIONS = [
 ]
 SHARDS = {"quick": 16, "thorough": 16}
 TIMEOUT = {"quick": 900, "thorough": 7200}
-MIN_CASES = {"quick": 20000, "thorough": 200000}
+MIN_CASES = {"quick": 20000, "thorough": 70000}
 REQUIRED_COUNTERS = ["ble_requests_reassembled", "ble_encrypted_requests", "ble_responses_reassembled", "ble_bad_fragments_rejected", "coap_batches_decoded", "coap_items_attributed", "coap_request_batches"]
 
 
@@ -198,7 +198,7 @@ async def ble_part(ctx) -> None:
         if ctx.mine(idx):
             ctx.case("ble-resp-headeronly", status)
             await ble_case(ctx, 64, 4, False, status, None, None, "CHAR_WRITE", 5, seed=idx)
-    for k in range(ctx.pick(200, 4000)):
+    for k in range(ctx.pick(200, 40000)):
         idx += 1
         if not ctx.mine(idx):
             continue
@@ -355,7 +355,7 @@ def coap_part(ctx) -> None:
             coap_batch(ctx, outcomes, blens, idx)
     ctx.exhaustive_parts["CoAP: all batches of 1..4 items over 13 per-item outcomes"] = True
     rng = ctx.grng("C17.coap")
-    for k in range(ctx.pick(3000, 60000)):
+    for k in range(ctx.pick(3000, 600000)):
         idx += 1
         if not ctx.mine(idx):
             continue
